@@ -1,4 +1,5 @@
 import ShmVerif.Proof.LBRead
+import ShmVerif.Proof.Pigeon
 /-!
   Writer half of the byte-pipe refinement.  Every BufferWriter operation of the linked buffer appends exactly the
   written bytes to the abstract content (the concatenation of the slices' unread parts), wherever slice boundaries
@@ -56,6 +57,7 @@ structure BS.Fresh (m0 m : Mem) (b : BS) : Prop where
   len : (b.bytes m).length = b.cap
   own : ∀ i, b.slot = some i → i ∈ m0.free.flatten ∧ i ∉ m.free.flatten
   start : b.ri = b.start
+  hn : ∀ i, b.slot = some i → (m.slot i).hdr.hasNext = false
 
 structure AllocOK (m m' : Mem) (bs : List BS) : Prop where
   data : ∀ j, (m'.slot j).data = (m.slot j).data
@@ -65,6 +67,7 @@ structure AllocOK (m m' : Mem) (bs : List BS) : Prop where
   nodup : (bs.filterMap (·.slot)).Nodup
   wf : m'.WF
   shm : ∀ b ∈ bs, b.slot.isSome = true
+  hdrs : ∀ j, j ∉ m.free.flatten → (m'.slot j).hdr = (m.slot j).hdr
 
 theorem slot_setSlot_hdr (m : Mem) (i j : Nat) (f : Hdr → Hdr) :
     ((m.setSlot i (fun x => { x with hdr := f x.hdr })).slot j).cap = (m.slot j).cap ∧
@@ -126,7 +129,8 @@ theorem pop_spec (m : Mem) (c : Nat) (m' : Mem) (b : BS) (hw : m.WF) (h : m.pop 
         exact ⟨h1, h2.1, h2.2⟩
       have hlen : m'.slots.length = m.slots.length := by rw [← hm]; simp [Mem.setSlot]
       have hclean := hw.freeClean i himem
-      refine ⟨fun k => (hslots k).1, hlen, ?_, ?_, ?_, ?_, by intro b' hb'; simp only [mem_singleton] at hb'; subst hb'; rw [← hb]; rfl⟩
+      refine ⟨fun k => (hslots k).1, hlen, ?_, ?_, ?_, ?_, by intro b' hb'; simp only [mem_singleton] at hb'; subst hb'; rw [← hb]; rfl,
+        fun k hk => (hslots k).2.2 (fun e => hk (e ▸ himem))⟩
       · intro b' hb'
         simp only [mem_singleton] at hb'; subst hb'
         rw [← hb]
@@ -140,7 +144,13 @@ theorem pop_spec (m : Mem) (c : Nat) (m' : Mem) (b : BS) (hw : m.WF) (h : m.pop 
           unfold Mem.slot at hclean
           simp only [getD_eq_getElem?_getD, hi, Option.getD_some] at hclean
           simp [hi, hclean]
-        refine ⟨?_, ?_, ?_, ?_, rfl⟩
+        have hhn : ((m'.slot i).hdr).hasNext = false := by
+          rw [← hm]
+          unfold Mem.setSlot Mem.slot
+          have := hw.freeLt i himem
+          have hi : m.slots[i]? = some (m.slots[i]) := by simp [this]
+          simp [getD_eq_getElem?_getD, getElem?_modify, hi]
+        refine ⟨?_, ?_, ?_, ?_, rfl, fun k hk => by simp only [Option.some.injEq] at hk; subst hk; exact hhn⟩
         · simp only; rw [hm]; simp [hsz.1]
         · simp only; rw [hm, hsz.1, hsz.2, (hslots i).2.1]; simpa using hcap
         · simp only [BS.bytes]; rw [hm, (hslots i).1, (hslots i).2.1]
@@ -172,19 +182,21 @@ theorem bytes_of_data_eq {m m' : Mem} (h : ∀ j, (m'.slot j).data = (m.slot j).
   | some i => exact h i
 
 theorem AllocOK.refl (m : Mem) (hw : m.WF) : AllocOK m m [] :=
-  ⟨fun _ => rfl, rfl, fun _ hb => absurd hb (by simp), fun _ h => h, by simp, hw, fun _ hb => absurd hb (by simp)⟩
+  ⟨fun _ => rfl, rfl, fun _ hb => absurd hb (by simp), fun _ h => h, by simp, hw, fun _ hb => absurd hb (by simp), fun _ _ => rfl⟩
 
 theorem AllocOK.trans {m m1 m2 : Mem} {bs1 bs2 : List BS} (h1 : AllocOK m m1 bs1) (h2 : AllocOK m1 m2 bs2) :
     AllocOK m m2 (bs1 ++ bs2) := by
   refine ⟨fun j => (h2.data j).trans (h1.data j), h2.slen.trans h1.slen, ?_, fun i hi => h1.sub i (h2.sub i hi), ?_, h2.wf,
-    fun b hb => by rcases mem_append.mp hb with hb | hb; exact h1.shm b hb; exact h2.shm b hb⟩
+    fun b hb => by rcases mem_append.mp hb with hb | hb; exact h1.shm b hb; exact h2.shm b hb,
+    fun j hj => (h2.hdrs j (fun hh => hj (h1.sub j hh))).trans (h1.hdrs j hj)⟩
   · intro b hb
     rcases mem_append.mp hb with hb | hb
     · have f := h1.fresh b hb
       exact ⟨f.empty, f.room, by rw [bytes_of_data_eq h2.data]; exact f.len,
-        fun i hi => ⟨(f.own i hi).1, fun hh => (f.own i hi).2 (h2.sub i hh)⟩, f.start⟩
+        fun i hi => ⟨(f.own i hi).1, fun hh => (f.own i hi).2 (h2.sub i hh)⟩, f.start,
+        fun i hi => by rw [h2.hdrs i (f.own i hi).2]; exact f.hn i hi⟩
     · have f := h2.fresh b hb
-      exact ⟨f.empty, f.room, f.len, fun i hi => ⟨h1.sub i (f.own i hi).1, (f.own i hi).2⟩, f.start⟩
+      exact ⟨f.empty, f.room, f.len, fun i hi => ⟨h1.sub i (f.own i hi).1, (f.own i hi).2⟩, f.start, f.hn⟩
   · rw [filterMap_append, nodup_append]
     refine ⟨h1.nodup, h2.nodup, ?_⟩
     intro a ha b hb e
@@ -270,13 +282,14 @@ structure SlInv (m : Mem) (sl : List BS) : Prop where
   notFree : ∀ i ∈ sl.filterMap (·.slot), i ∉ m.free.flatten
   lt : ∀ i ∈ sl.filterMap (·.slot), i < m.slots.length
   snd : ∀ s ∈ sl, s.ri = s.start ∧ s.ri < s.cap
+  hn : ∀ i ∈ sl.filterMap (·.slot), (m.slot i).hdr.hasNext = false
 
 theorem slInv_alloc {m m' : Mem} {sl bs : List BS} (hw : m.WF) (h : SlInv m sl) (a : AllocOK m m' bs) : SlInv m' (sl ++ bs) := by
   refine ⟨?_, ?_, ?_, ?_, fun s hs => by
     rcases mem_append.mp hs with hs | hs
     · exact h.snd s hs
     · have f := a.fresh s hs
-      exact ⟨f.start, by rw [f.empty]; exact f.room⟩⟩
+      exact ⟨f.start, by rw [f.empty]; exact f.room⟩, ?_⟩
   · intro s hs
     rcases mem_append.mp hs with hs | hs
     · obtain ⟨h1, h2, h3⟩ := h.ok s hs
@@ -305,9 +318,16 @@ theorem slInv_alloc {m m' : Mem} {sl bs : List BS} (hw : m.WF) (h : SlInv m sl) 
     · simp only [mem_filterMap] at hi
       obtain ⟨b, hb, eb⟩ := hi
       exact hw.freeLt i ((a.fresh b hb).own i eb).1
+  · intro i hi
+    rw [filterMap_append] at hi
+    rcases mem_append.mp hi with hi | hi
+    · rw [a.hdrs i (h.notFree i hi)]; exact h.hn i hi
+    · simp only [mem_filterMap] at hi
+      obtain ⟨b, hb, eb⟩ := hi
+      exact (a.fresh b hb).hn i eb
 
 theorem heapSlice_fresh (m0 m : Mem) (n : Nat) (hn : 0 < n) : (heapSlice n).Fresh m0 m :=
-  ⟨rfl, hn, by simp [heapSlice, BS.bytes], fun i hi => by simp [heapSlice] at hi, rfl⟩
+  ⟨rfl, hn, by simp [heapSlice, BS.bytes], fun i hi => by simp [heapSlice] at hi, rfl, fun i hi => by simp [heapSlice] at hi⟩
 
 /-- what `linkedBuffer.alloc` guarantees: at least one fresh slice is appended, nothing else changes -/
 structure LAlloc (m : Mem) (l : LBuf) (m' : Mem) (l' : LBuf) (new : List BS) (size : Nat) : Prop where
@@ -323,6 +343,7 @@ structure LAlloc (m : Mem) (l : LBuf) (m' : Mem) (l' : LBuf) (new : List BS) (si
   slen : m'.slots.length = m.slots.length
   tight : ((new.map (·.cap)).dropLast).sum < size
   shm : l'.fromShm = true → l.fromShm = true ∧ ∀ b ∈ new, b.slot.isSome = true
+  hdrs : ∀ j, j ∉ m.free.flatten → (m'.slot j).hdr = (m.slot j).hdr
 
 theorem lalloc_spec (m : Mem) (l : LBuf) (size : Nat) (hw : m.WF) (hs : 0 < size) :
     ∃ new, LAlloc m l (l.alloc m size).1 (l.alloc m size).2 new size := by
@@ -332,7 +353,7 @@ theorem lalloc_spec (m : Mem) (l : LBuf) (size : Nat) (hw : m.WF) (hs : 0 < size
     obtain ⟨m', b⟩ := r
     simp only
     have a := allocOne_spec m size m' b hw h1
-    exact ⟨[b], rfl, by simp, rfl, rfl, a.wf, a.data, a.sub, a.fresh, a.nodup, a.slen, by simpa using hs, fun h => ⟨h, a.shm⟩⟩
+    exact ⟨[b], rfl, by simp, rfl, rfl, a.wf, a.data, a.sub, a.fresh, a.nodup, a.slen, by simpa using hs, fun h => ⟨h, a.shm⟩, a.hdrs⟩
   | none =>
     simp only
     have a := allocMany_spec m size hw
@@ -342,7 +363,7 @@ theorem lalloc_spec (m : Mem) (l : LBuf) (size : Nat) (hw : m.WF) (hs : 0 < size
     obtain ⟨a, r', hg⟩ := a
     by_cases hlt : got < size
     · rw [if_pos hlt]
-      refine ⟨bs ++ [heapSlice (max (size - got) defaultSingleBufferSize)], by simp, by simp, rfl, rfl, a.wf, a.data, a.sub, ?_, ?_, a.slen, ?_, fun h => by simp at h⟩
+      refine ⟨bs ++ [heapSlice (max (size - got) defaultSingleBufferSize)], by simp, by simp, rfl, rfl, a.wf, a.data, a.sub, ?_, ?_, a.slen, ?_, fun h => by simp at h, a.hdrs⟩
       · intro b hb
         rcases mem_append.mp hb with hb | hb
         · exact a.fresh b hb
@@ -359,7 +380,7 @@ theorem lalloc_spec (m : Mem) (l : LBuf) (size : Nat) (hw : m.WF) (hs : 0 < size
         rw [e] at this
         simp at this
         omega
-      refine ⟨bs, rfl, hne, rfl, rfl, a.wf, a.data, a.sub, a.fresh, a.nodup, a.slen, ?_, fun h => ⟨h, a.shm⟩⟩
+      refine ⟨bs, rfl, hne, rfl, rfl, a.wf, a.data, a.sub, a.fresh, a.nodup, a.slen, ?_, fun h => ⟨h, a.shm⟩, a.hdrs⟩
       rcases hg.need with h0 | h0
       · exact absurd h0 hne
       · exact h0
@@ -370,7 +391,13 @@ theorem slInv_lalloc {m m' : Mem} {l l' : LBuf} {new : List BS} {size : Nat} (hw
     rcases mem_append.mp hs with hs | hs
     · exact h.snd s hs
     · have f := a.fresh s hs
-      exact ⟨f.start, by rw [f.empty]; exact f.room⟩⟩
+      exact ⟨f.start, by rw [f.empty]; exact f.room⟩, fun i hi => by
+    rw [filterMap_append] at hi
+    rcases mem_append.mp hi with hi | hi
+    · rw [a.hdrs i (h.notFree i hi)]; exact h.hn i hi
+    · simp only [mem_filterMap] at hi
+      obtain ⟨b, hb, eb⟩ := hi
+      exact (a.fresh b hb).hn i eb⟩
   · intro s hs
     rcases mem_append.mp hs with hs | hs
     · obtain ⟨h1, h2, h3⟩ := h.ok s hs
@@ -485,6 +512,7 @@ structure AppendOK (m : Mem) (sl : List BS) (wi : Nat) (s : BS) (d : List Nat) (
   slots : m1.slots.length = m.slots.length
   data0 : k = 0 → ∀ j, (m1.slot j).data = (m.slot j).data
   slot : s1.slot = s.slot
+  hdr : ∀ j, (m1.slot j).hdr = (m.slot j).hdr
 
 theorem unread_write (l : List Nat) (ri wi k : Nat) (c : List Nat) (h1 : ri ≤ wi) (h2 : wi + k ≤ l.length) (hc : c.length = k) :
     ((writeAt l wi c).drop ri).take (wi + k - ri) = (l.drop ri).take (wi - ri) ++ c := by
@@ -515,7 +543,7 @@ theorem append_spec (m : Mem) (sl : List BS) (wi : Nat) (s : BS) (d : List Nat) 
       · subst ht
         have := hi.snd s hmem
         rw [e1, e2, e3]; exact this
-    refine ⟨rfl, hw, ⟨?_, ?_, ?_, ?_, hsnd _ rfl rfl rfl⟩, rfl, ?_, fun j t _ _ => rfl, rfl, rfl, rfl, rfl, fun _ _ => rfl, hs.symm⟩
+    refine ⟨rfl, hw, ⟨?_, ?_, ?_, ?_, hsnd _ rfl rfl rfl, by rw [hfm]; exact hi.hn⟩, rfl, ?_, fun j t _ _ => rfl, rfl, rfl, rfl, rfl, fun _ _ => rfl, hs.symm, fun _ => rfl⟩
     · intro t ht
       rcases mem_or_eq_of_mem_set ht with ht | ht
       · exact hi.ok t ht
@@ -568,7 +596,12 @@ theorem append_spec (m : Mem) (sl : List BS) (wi : Nat) (s : BS) (d : List Nat) 
       · subst ht
         have := hi.snd s hmem
         rw [e1, e2, e3]; exact this
-    refine ⟨rfl, ?_, ⟨?_, ?_, ?_, ?_, hsnd _ rfl rfl rfl⟩, rfl, ?_, ?_, rfl, rfl, rfl, by simp [Mem.setSlot], ?_, hs.symm⟩
+    have hhdr : ∀ j, ((m.setSlot i (fun x => { x with data := writeAt x.data s.wi (d.take (min d.length (s.cap - s.wi))) })).slot j).hdr = (m.slot j).hdr := by
+      intro j
+      by_cases e : j = i
+      · subst e; rw [hself]
+      · rw [hother j e]
+    refine ⟨rfl, ?_, ⟨?_, ?_, ?_, ?_, hsnd _ rfl rfl rfl, by rw [hfm]; intro j hj; rw [hhdr j]; exact hi.hn j hj⟩, rfl, ?_, ?_, rfl, rfl, rfl, by simp [Mem.setSlot], ?_, hs.symm, hhdr⟩
     · -- Mem.WF
       refine ⟨?_, ?_, hw.freeNodup, ?_, ?_⟩
       · intro j hj
@@ -904,7 +937,7 @@ def WBuf (m : Mem) (l : LBuf) : Prop :=
   (l.w = none ∧ l.sl = []) ∨ ∃ wi, WInv m l wi ∧ wi + 1 = l.sl.length ∧ ∀ t, l.sl[wi]? = some t → t.ri < t.wi
 
 theorem slInv_nil (m : Mem) : SlInv m [] :=
-  ⟨fun _ h => absurd h (by simp), by simp, fun _ h => absurd h (by simp), fun _ h => absurd h (by simp), fun _ h => absurd h (by simp)⟩
+  ⟨fun _ h => absurd h (by simp), by simp, fun _ h => absurd h (by simp), fun _ h => absurd h (by simp), fun _ h => absurd h (by simp), fun _ h => absurd h (by simp)⟩
 
 theorem lalloc_one {m m' : Mem} {l l' : LBuf} {new : List BS} (a : LAlloc m l m' l' new 1) : new.length = 1 := by
   have h2 := a.tight
@@ -1024,9 +1057,10 @@ theorem append_content {m : Mem} {sl : List BS} {idx : Nat} {s : BS} {d : List N
   rw [e1, hnil m1, hnil m]; simp [append_assoc]
 
 theorem slInv_of_same {m m1 : Mem} {sl : List BS} (h : SlInv m sl) (hd : ∀ j, (m1.slot j).data = (m.slot j).data)
-    (hf : m1.free = m.free) (hl : m1.slots.length = m.slots.length) : SlInv m1 sl :=
+    (hf : m1.free = m.free) (hl : m1.slots.length = m.slots.length) (hh : ∀ j, (m1.slot j).hdr = (m.slot j).hdr) : SlInv m1 sl :=
   ⟨fun s hs => by obtain ⟨a, b, c⟩ := h.ok s hs; exact ⟨a, b, by rw [bytes_of_data_eq hd]; exact c⟩,
-   h.nodup, fun i hi => by rw [hf]; exact h.notFree i hi, fun i hi => by rw [hl]; exact h.lt i hi, h.snd⟩
+   h.nodup, fun i hi => by rw [hf]; exact h.notFree i hi, fun i hi => by rw [hl]; exact h.lt i hi, h.snd,
+   fun i hi => by rw [hh i]; exact h.hn i hi⟩
 
 theorem writeByte_some (m0 : Mem) (l0 : LBuf) (wi : Nat) (b : Nat) (hw0 : m0.WF) (hi0 : WInv m0 l0 wi)
     (htight : wi + 1 = l0.sl.length) :
@@ -1078,7 +1112,7 @@ theorem writeByte_some (m0 : Mem) (l0 : LBuf) (wi : Nat) (b : Nat) (hw0 : m0.WF)
       have := A.kdef
       simp only [length_singleton] at this
       omega
-    have hsl1 : SlInv m1 l0.sl := slInv_of_same hi0.sl (A.data0 hk0) A.free A.slots
+    have hsl1 : SlInv m1 l0.sl := slInv_of_same hi0.sl (A.data0 hk0) A.free A.slots A.hdr
     obtain ⟨new, a⟩ := lalloc_spec m1 l0 1 A.wf (by omega)
     rcases hal : l0.alloc m1 1 with ⟨m2, l2⟩
     rw [hal] at a
@@ -1238,5 +1272,357 @@ theorem create_wf (classes : List (Nat × Nat)) (hpos : ∀ c ∈ classes, 0 < c
     rw [hslot i hi']
     have : slots[i]! ∈ slots := by simp [hi']
     exact (h1 _ this).2.2
+
+/-! ### the shared-memory transport: `done` writes the chain into the headers, the peer's `moveChain` reads it back -/
+
+theorem slot_setSlot_hdr_full (m : Mem) (i j : Nat) (g : Hdr → Hdr) :
+    (m.setSlot i (fun x => { x with hdr := g x.hdr })).slot j =
+      if i = j ∧ j < m.slots.length then { (m.slot j) with hdr := g (m.slot j).hdr } else m.slot j := by
+  unfold Mem.setSlot Mem.slot
+  simp only [getD_eq_getElem?_getD, getElem?_modify]
+  by_cases h : i = j
+  · subst h
+    by_cases hl : i < m.slots.length
+    · simp [hl]
+    · have : m.slots[i]? = none := by simp; omega
+      simp [this, hl]
+  · simp [h]
+
+def hdrUpd (s : BS) (next : Option BS) (h : Hdr) : Hdr :=
+  match next with
+  | some n => { h with size := s.size, start := s.start, next := n.slot.getD 0, hasNext := true }
+  | none => { h with size := s.size, start := s.start }
+
+theorem updateHdr_eq (m : Mem) (s : BS) (next : Option BS) (i : Nat) (hs : s.slot = some i) :
+    updateHdr m s next = m.setSlot i (fun x => { x with hdr := hdrUpd s next x.hdr }) := by
+  unfold updateHdr hdrUpd
+  rw [hs]
+  cases next <;> rfl
+
+/-- what `bufferSlice.update` does to the memory: only the header of the slice's own slot changes -/
+theorem updateHdr_spec (m : Mem) (s : BS) (next : Option BS) (i : Nat) (hs : s.slot = some i) (hi : i < m.slots.length) :
+    (updateHdr m s next).free = m.free ∧ (updateHdr m s next).slots.length = m.slots.length ∧
+    (∀ j, ((updateHdr m s next).slot j).data = (m.slot j).data ∧ ((updateHdr m s next).slot j).cap = (m.slot j).cap) ∧
+    (∀ j, j ≠ i → ((updateHdr m s next).slot j).hdr = (m.slot j).hdr) ∧
+    ((updateHdr m s next).slot i).hdr = hdrUpd s next (m.slot i).hdr := by
+  rw [updateHdr_eq m s next i hs]
+  have key := fun j => slot_setSlot_hdr_full m i j (hdrUpd s next)
+  refine ⟨rfl, by simp [Mem.setSlot], ?_, ?_, ?_⟩
+  · intro j; rw [key j]; split <;> exact ⟨rfl, rfl⟩
+  · intro j hj; rw [key j]; simp [Ne.symm hj]
+  · rw [key i]; simp [hi]
+
+def doneStep (l : LBuf) (m : Mem) (i : Nat) : Mem :=
+  match l.sl[i]? with
+  | some s => updateHdr m s l.sl[i + 1]?
+  | none => m
+
+structure DoneFold (m : Mem) (l : LBuf) (k : Nat) (mk : Mem) : Prop where
+  free : mk.free = m.free
+  slen : mk.slots.length = m.slots.length
+  data : ∀ j, (mk.slot j).data = (m.slot j).data ∧ (mk.slot j).cap = (m.slot j).cap
+  set : ∀ j s i, j < k → l.sl[j]? = some s → s.slot = some i → (mk.slot i).hdr = hdrUpd s l.sl[j + 1]? (m.slot i).hdr
+  keep : ∀ i, (∀ j s, j < k → l.sl[j]? = some s → s.slot ≠ some i) → (mk.slot i).hdr = (m.slot i).hdr
+
+theorem done_fold (m : Mem) (l : LBuf) (hi : SlInv m l.sl) (hshm : ∀ s ∈ l.sl, s.slot.isSome = true) :
+    ∀ k, k ≤ l.sl.length → DoneFold m l k ((List.range k).foldl (doneStep l) m) := by
+  intro k
+  induction k with
+  | zero =>
+    intro _
+    exact ⟨rfl, rfl, fun _ => ⟨rfl, rfl⟩, fun j s i hj => absurd hj (by omega), fun _ _ => rfl⟩
+  | succ k ih =>
+    intro hk
+    have IH := ih (by omega)
+    rw [range_succ, foldl_append]
+    simp only [foldl_cons, foldl_nil]
+    generalize hmk : (List.range k).foldl (doneStep l) m = mk at IH ⊢
+    obtain ⟨sk, hsk⟩ : ∃ s, l.sl[k]? = some s := ⟨l.sl[k], by simp⟩
+    obtain ⟨ik, hik⟩ : ∃ i, sk.slot = some i := by
+      have := hshm sk (mem_of_getElem? hsk)
+      cases h : sk.slot with
+      | none => rw [h] at this; cases this
+      | some i => exact ⟨i, rfl⟩
+    have hikl : ik < mk.slots.length := by
+      rw [IH.slen]; exact hi.lt ik (mem_filterMap.mpr ⟨sk, mem_of_getElem? hsk, hik⟩)
+    unfold doneStep
+    rw [hsk]
+    simp only
+    obtain ⟨u1, u2, u3, u4, u5⟩ := updateHdr_spec mk sk l.sl[k + 1]? ik hik hikl
+    -- slot ik is not the slot of an earlier slice
+    have hnot : ∀ j s, j < k → l.sl[j]? = some s → s.slot ≠ some ik := by
+      intro j s hj hs e
+      have := filterMap_nodup_index (fun x : BS => x.slot) l.sl j k s sk ik hi.nodup hs hsk e hik
+      omega
+    refine ⟨u1.trans IH.free, u2.trans IH.slen, fun j => ⟨(u3 j).1.trans (IH.data j).1, (u3 j).2.trans (IH.data j).2⟩, ?_, ?_⟩
+    · intro j s i hj hs hsi
+      by_cases e : j = k
+      · subst e
+        rw [hsk] at hs; cases hs
+        rw [hik] at hsi; cases hsi
+        rw [u5, IH.keep ik hnot]
+      · have hne : i ≠ ik := by
+          intro e2; subst e2
+          exact hnot j s (by omega) hs hsi
+        rw [u4 i hne]
+        exact IH.set j s i (by omega) hs hsi
+    · intro i hno
+      have hne : i ≠ ik := by
+        intro e2; subst e2
+        exact hno k sk (by omega) hsk hik
+      rw [u4 i hne]
+      exact IH.keep i (fun j s hj hs => hno j s (by omega) hs)
+
+theorem done_spec (m : Mem) (l : LBuf) (wi : Nat) (hi : WInv m l wi) (ht : wi + 1 = l.sl.length) (hf : l.fromShm = true) :
+    ∃ m1, l.done m = some (m1, l) ∧ DoneFold m l (wi + 1) m1 := by
+  have F := done_fold m l hi.sl (hi.shm hf) (wi + 1) (by omega)
+  refine ⟨(List.range (wi + 1)).foldl (doneStep l) m, ?_, F⟩
+  have hw := hi.w
+  rcases l with ⟨sl, w, pn, cp, fs, ln⟩
+  simp only at hw hf ht
+  subst hw; subst hf
+  unfold LBuf.done
+  simp only [Bool.not_true, Bool.false_eq_true, if_false]
+  have h1 : sl.drop (wi + 1) = [] := drop_eq_nil_of_le (by omega)
+  have h2 : sl.take (wi + 1) = sl := take_of_length_le (by omega)
+  rw [h1, h2]
+  rfl
+
+/-- the slice `readBufferSlice` builds from a slot's header -/
+def reSlice (m1 : Mem) (i : Nat) : BS :=
+  { slot := some i, cap := (m1.slot i).cap, start := (m1.slot i).hdr.start, ri := (m1.slot i).hdr.start,
+    wi := (m1.slot i).hdr.start + (m1.slot i).hdr.size }
+
+theorem readSlice_eq (m1 : Mem) (i : Nat) (h : i < m1.slots.length) : m1.readSlice i = some (reSlice m1 i) := by
+  unfold Mem.readSlice reSlice
+  rw [if_pos h]
+
+/-- the peer reads the chain back: every slice of the send buffer re-appears, with the same unread bytes, at the end of
+    the receive buffer -/
+theorem moveChain_spec (m m1 : Mem) (l : LBuf) (wi : Nat) (hw : m.WF) (hi : WInv m l wi) (ht : wi + 1 = l.sl.length)
+    (hne : ∀ t, l.sl[wi]? = some t → t.ri < t.wi) (hf : l.fromShm = true) (D : DoneFold m l (wi + 1) m1) :
+    ∀ (n j : Nat) (fuel : Nat) (r : LBuf) (sj : BS) (ij : Nat), j + n = wi + 1 → 0 < n → n ≤ fuel →
+      l.sl[j]? = some sj → sj.slot = some ij →
+      ∃ r', moveChain fuel m1 r ij = some (m1, r') ∧
+        content m1 r'.sl = content m1 r.sl ++ content m (l.sl.drop j) ∧
+        (SlicesWF m1 r.sl → SlicesWF m1 r'.sl) ∧
+        (r.len = (content m1 r.sl).length → r'.len = (content m1 r'.sl).length) := by
+  intro n
+  induction n with
+  | zero => intro j fuel r sj ij _ h0; omega
+  | succ n ih =>
+    intro j fuel r sj ij hjn _ hfuel hsj hij
+    obtain ⟨f, rfl⟩ : ∃ f, fuel = f + 1 := ⟨fuel - 1, by omega⟩
+    have hjl : j < l.sl.length := by omega
+    have hmem : sj ∈ l.sl := mem_of_getElem? hsj
+    have hilt : ij < m.slots.length := hi.sl.lt ij (mem_filterMap.mpr ⟨sj, hmem, hij⟩)
+    obtain ⟨o1, o2, o3⟩ := hi.sl.ok sj hmem
+    obtain ⟨q1, q2⟩ := hi.sl.snd sj hmem
+    have hbytes : sj.bytes m = (m.slot ij).data := by simp [BS.bytes, hij]
+    -- the header `done` wrote
+    have hhdr := D.set j sj ij (by omega) hsj hij
+    have hsz : sj.ri < sj.wi := by
+      rcases Nat.lt_or_ge j wi with h1 | h1
+      · exact hi.full j sj h1 hsj
+      · have : j = wi := by omega
+        subst this; exact hne sj hsj
+    have hsize : (m1.slot ij).hdr.size = sj.size ∧ (m1.slot ij).hdr.start = sj.start := by
+      rw [hhdr]; unfold hdrUpd; split <;> exact ⟨rfl, rfl⟩
+    have hpos : ¬ ((reSlice m1 ij).size = 0) := by
+      simp only [reSlice, BS.size]; rw [hsize.1]; unfold BS.size; omega
+    -- its unread bytes are those of the sender's slice
+    have hun : (reSlice m1 ij).unread m1 = sj.unread m := by
+      have e1 : (reSlice m1 ij).unread m1 = (((m1.slot ij).data).drop (m1.slot ij).hdr.start).take ((m1.slot ij).hdr.start + (m1.slot ij).hdr.size - (m1.slot ij).hdr.start) := rfl
+      have e2 : sj.unread m = ((sj.bytes m).drop sj.ri).take (sj.wi - sj.ri) := rfl
+      rw [e1, e2, (D.data ij).1, hsize.1, hsize.2, hbytes, ← q1]
+      simp only [BS.size]; congr 1; omega
+    have hwf1 : (reSlice m1 ij).WF m1 := by
+      have e1 : (reSlice m1 ij).WF m1 = ((m1.slot ij).hdr.start ≤ (m1.slot ij).hdr.start + (m1.slot ij).hdr.size ∧
+          (m1.slot ij).hdr.start + (m1.slot ij).hdr.size ≤ ((m1.slot ij).data).length) := rfl
+      rw [e1, (D.data ij).1, hsize.1, hsize.2, ← hbytes, o3, ← q1]
+      simp only [BS.size]; omega
+    have hcons : content m (l.sl.drop j) = sj.unread m ++ content m (l.sl.drop (j + 1)) := by
+      rw [drop_eq_getElem_cons hjl, content_cons]
+      have : l.sl[j] = sj := by rw [getElem?_eq_getElem hjl] at hsj; simpa using hsj
+      rw [this]
+    have happ : content m1 (r.appendSlice (reSlice m1 ij)).sl = content m1 r.sl ++ sj.unread m := by
+      simp only [LBuf.appendSlice]
+      unfold content
+      rw [flatMap_append]
+      simp only [flatMap_cons, flatMap_nil, append_nil]
+      rw [hun]
+    have hwfa : SlicesWF m1 r.sl → SlicesWF m1 (r.appendSlice (reSlice m1 ij)).sl := by
+      intro h t ht
+      simp only [LBuf.appendSlice] at ht
+      rcases mem_append.mp ht with ht | ht
+      · exact h t ht
+      · simp only [mem_singleton] at ht; subst ht; exact hwf1
+    have hlena : r.len = (content m1 r.sl).length → (r.appendSlice (reSlice m1 ij)).len = (content m1 (r.appendSlice (reSlice m1 ij)).sl).length := by
+      intro h
+      rw [happ, length_append, ← hun, BS.unread_length m1 _ hwf1]
+      simp only [LBuf.appendSlice]; omega
+    unfold moveChain
+    rw [readSlice_eq m1 ij (by rw [D.slen]; exact hilt)]
+    simp only
+    rw [if_neg hpos]
+    rcases Nat.lt_or_ge j wi with hlt | hge
+    · -- an inner slice: `done` linked it to the next one
+      obtain ⟨sn, hsn⟩ : ∃ s, l.sl[j + 1]? = some s := ⟨l.sl[j + 1]'(by omega), by simp⟩
+      obtain ⟨inx, hinx⟩ : ∃ i, sn.slot = some i := by
+        have := hi.shm hf sn (mem_of_getElem? hsn)
+        cases h : sn.slot with
+        | none => rw [h] at this; cases this
+        | some i => exact ⟨i, rfl⟩
+      have hnext : (m1.slot ij).hdr.hasNext = true ∧ (m1.slot ij).hdr.next = inx := by
+        rw [hhdr, hsn]; unfold hdrUpd; simp [hinx]
+      rw [if_pos hnext.1, hnext.2]
+      obtain ⟨r', e, hc, hwf, hlen⟩ := ih (j + 1) f (r.appendSlice (reSlice m1 ij)) sn inx (by omega) (by omega) (by omega) hsn hinx
+      refine ⟨r', e, ?_, fun h => hwf (hwfa h), fun h => hlen (hlena h)⟩
+      rw [hc, happ, hcons, append_assoc]
+    · -- the last slice: its header does not point anywhere
+      have hjw : j = wi := by omega
+      have hnone : l.sl[j + 1]? = none := by simp; omega
+      have hnn : (m1.slot ij).hdr.hasNext = false := by
+        rw [hhdr, hnone]; unfold hdrUpd
+        exact hi.sl.hn ij (mem_filterMap.mpr ⟨sj, hmem, hij⟩)
+      rw [if_neg (by rw [hnn]; simp)]
+      refine ⟨_, rfl, ?_, hwfa, hlena⟩
+      rw [happ, hcons]
+      have : l.sl.drop (j + 1) = [] := drop_eq_nil_of_le (by omega)
+      rw [this]; simp [content]
+
+theorem filterMap_length_of_all_some {α β : Type} (f : α → Option β) : ∀ (l : List α), (∀ x ∈ l, (f x).isSome = true) →
+    (l.filterMap f).length = l.length
+  | [], _ => rfl
+  | a :: r, h => by
+    have h1 := h a mem_cons_self
+    cases hf : f a with
+    | none => rw [hf] at h1; cases h1
+    | some v =>
+      rw [filterMap_cons, hf]
+      simp only [length_cons]
+      rw [filterMap_length_of_all_some f r (fun x hx => h x (mem_cons_of_mem _ hx))]
+
+/-- **Transport through shared memory.** A send buffer produced by the writer operations (all slices in shared memory,
+    the stream not in fall-back) is flushed: `done` writes the chain into the slot headers, the queue element carries the
+    offset of the first slice, and the peer's `moveTo` appends the re-read slices to its receive buffer.  The peer's
+    buffered byte sequence grows by exactly the sender's buffered byte sequence; no payload byte is touched. -/
+theorem transport_shm (m : Mem) (x peer : StreamM) (wi : Nat) (hw : m.WF) (hi : WInv m x.send wi)
+    (ht : wi + 1 = x.send.sl.length) (hne : ∀ t, x.send.sl[wi]? = some t → t.ri < t.wi)
+    (hlen : x.send.len ≠ 0) (hfb : x.inFallback = false) (hf : x.send.fromShm = true) (hp : peer.pending = []) :
+    ∃ m1 x' peer' peer'', flush m x peer = (m1, x', peer', .shm) ∧ moveTo m1 peer' = some (m1, peer'') ∧
+      content m1 peer''.recv.sl = content m1 peer.recv.sl ++ content m x.send.sl ∧
+      (∀ j, (m1.slot j).data = (m.slot j).data) ∧
+      (SlicesWF m1 peer.recv.sl → SlicesWF m1 peer''.recv.sl) ∧
+      (peer.recv.len = (content m1 peer.recv.sl).length → peer''.recv.len = (content m1 peer''.recv.sl).length) ∧
+      peer''.pending = [] := by
+  obtain ⟨m1, hd, D⟩ := done_spec m x.send wi hi ht hf
+  have hl0 : 0 < x.send.sl.length := by omega
+  obtain ⟨s0, hs0⟩ : ∃ s, x.send.sl[0]? = some s := ⟨x.send.sl[0], by simp⟩
+  obtain ⟨i0, hi0⟩ : ∃ i, s0.slot = some i := by
+    have := hi.shm hf s0 (mem_of_getElem? hs0)
+    cases h : s0.slot with
+    | none => rw [h] at this; cases this
+    | some i => exact ⟨i, rfl⟩
+  have hhead : x.send.sl.head? = some s0 := by
+    cases h : x.send.sl with
+    | nil => rw [h] at hl0; simp at hl0
+    | cons a r => rw [h] at hs0; simpa using hs0
+  -- enough fuel: the slices sit in pairwise different slots
+  have hfuel : wi + 1 ≤ m1.slots.length + 2 := by
+    have h1 := Pigeon.length_le m.slots.length (x.send.sl.filterMap (·.slot)) hi.sl.nodup hi.sl.lt
+    rw [filterMap_length_of_all_some _ _ (hi.shm hf)] at h1
+    rw [D.slen]; omega
+  obtain ⟨r', e, hc, hwf, hlen'⟩ := moveChain_spec m m1 x.send wi hw hi ht hne hf D (wi + 1) 0 (m1.slots.length + 2) peer.recv s0 i0
+    (by omega) (by omega) hfuel hs0 hi0
+  refine ⟨m1, { x with send := x.send.clean }, { peer with pending := peer.pending ++ [.shm i0] }, { peer with recv := r', pending := [] }, ?_, ?_, ?_, fun j => (D.data j).1, hwf, hlen', rfl⟩
+  · unfold flush
+    rw [if_neg hlen, hd]
+    simp only [hfb, hf, Bool.not_true, Bool.or_false, Bool.false_eq_true, if_false, hhead, hi0]
+  · unfold moveTo
+    rw [hp]
+    simp only [nil_append, foldl_cons, foldl_nil, e]
+  · simp only [drop_zero] at hc; exact hc
+
+/-! ### the fall-back transport: the payload is copied into the event -/
+
+theorem foldl_recycle_data (sl : List BS) : ∀ (m : Mem) (j : Nat), ((sl.foldl (fun m s => m.recycle s) m).slot j).data = (m.slot j).data := by
+  induction sl with
+  | nil => intro m j; rfl
+  | cons a r ih => intro m j; simp only [foldl_cons]; rw [ih (m.recycle a) j, recycle_data]
+
+theorem underlying_eq_content (m : Mem) (l : LBuf) (wi : Nat) (hwi : l.w = some wi) (ht : wi + 1 = l.sl.length) :
+    l.underlying m = content m l.sl := by
+  unfold LBuf.underlying
+  rw [hwi]
+  simp only
+  rw [take_of_length_le (by omega)]
+  rfl
+
+/-- **Transport through the connection.** A stream in fall-back state (or whose send buffer contains a heap slice) copies
+    its buffered bytes into the event; the peer appends them to its receive buffer as one heap slice. -/
+theorem transport_fb (m : Mem) (x peer : StreamM) (wi : Nat) (hi : WInv m x.send wi)
+    (ht : wi + 1 = x.send.sl.length) (hlen : x.send.len ≠ 0)
+    (hfb : x.inFallback = true ∨ x.send.fromShm = false) (hp : peer.pending = []) :
+    ∃ m2 x' peer' peer'', flush m x peer = (m2, x', peer', .fallback) ∧ moveTo m2 peer' = some (m2, peer'') ∧
+      content m2 peer''.recv.sl = content m2 peer.recv.sl ++ content m x.send.sl ∧
+      (∀ j, (m2.slot j).data = (m.slot j).data) ∧
+      (SlicesWF m2 peer.recv.sl → SlicesWF m2 peer''.recv.sl) ∧
+      (peer.recv.len = (content m2 peer.recv.sl).length → peer''.recv.len = (content m2 peer''.recv.sl).length) ∧
+      peer''.pending = [] ∧ x'.inFallback = true := by
+  -- `done`: either nothing (a heap slice is present) or the header chain (payload untouched)
+  have hdone : ∃ m1, x.send.done m = some (m1, x.send) ∧ ∀ j, (m1.slot j).data = (m.slot j).data := by
+    by_cases hf : x.send.fromShm = true
+    · obtain ⟨m1, hd, D⟩ := done_spec m x.send wi hi ht hf
+      exact ⟨m1, hd, fun j => (D.data j).1⟩
+    · refine ⟨m, ?_, fun _ => rfl⟩
+      unfold LBuf.done
+      simp [hf]
+  obtain ⟨m1, hd, hdata⟩ := hdone
+  have hinfb : (x.inFallback || !x.send.fromShm) = true := by
+    rcases hfb with h | h
+    · simp [h]
+    · simp [h]
+  -- the bytes that travel
+  have hund : x.send.underlying m1 = content m x.send.sl := by
+    rw [underlying_eq_content m1 x.send wi hi.w ht]
+    exact content_ext m1 m _ (fun j t _ => by unfold BS.unread; rw [bytes_of_data_eq hdata])
+  rcases hrc : x.send.recycle m1 with ⟨m2, s2⟩
+  have hdata2 : ∀ j, (m2.slot j).data = (m1.slot j).data := by
+    intro j
+    have : m2 = (x.send.recycle m1).1 := by rw [hrc]
+    rw [this]
+    unfold LBuf.recycle
+    simp only
+    rw [foldl_recycle_data, foldl_recycle_data]
+  let fbs : BS := { heap := content m x.send.sl, cap := (content m x.send.sl).length, wi := (content m x.send.sl).length }
+  have hfun : fbs.unread m2 = content m x.send.sl := by
+    simp [fbs, BS.unread, BS.bytes, BS.size]
+  have hfwf : fbs.WF m2 := by simp [fbs, BS.WF, BS.bytes]
+  refine ⟨m2, { x with send := s2.clean, inFallback := true }, { peer with pending := peer.pending ++ [.fb fbs] },
+    { peer with recv := peer.recv.appendSlice fbs, inFallback := true, pending := [] }, ?_, ?_, ?_, fun j => (hdata2 j).trans (hdata j), ?_, ?_, rfl, rfl⟩
+  · unfold flush
+    rw [if_neg hlen, hd]
+    simp only [hinfb, if_true, hund, hrc]
+    rfl
+  · unfold moveTo
+    rw [hp]
+    simp only [nil_append, foldl_cons, foldl_nil]
+  · simp only [LBuf.appendSlice]
+    unfold content
+    rw [flatMap_append]
+    simp only [flatMap_cons, flatMap_nil, append_nil]
+    rw [hfun]; rfl
+  · intro h t ht'
+    simp only [LBuf.appendSlice] at ht'
+    rcases mem_append.mp ht' with h1 | h1
+    · exact h t h1
+    · simp only [mem_singleton] at h1; subst h1; exact hfwf
+  · intro h
+    simp only [LBuf.appendSlice]
+    have : content m2 (peer.recv.sl ++ [fbs]) = content m2 peer.recv.sl ++ fbs.unread m2 := by
+      unfold content; rw [flatMap_append]; simp
+    rw [this, length_append, hfun]
+    simp [fbs, BS.size]; omega
 
 end LB
